@@ -94,13 +94,16 @@ def _edit_ops(rng, cfg, state, f=None, inflight_bias=False):
     r = rng.random()
     mt = None
     if r < 0.12:
-        mt = -rng.choice([0.5, 1.0, 3.0, 100.0, 1e5])     # mtime-preserving copy of an older file
+        mt = -rng.choice([0.5, 1.0, 3.0, 100.0, 1e5, 40 * 86400.0])     # mtime-preserving copy of an older file
     elif r < 0.17:
         mt = 'same'                                        # touch -r: content changes, mtime does not
     op = dict({'k': 'edit', 'f': f, 'dt': dt, 'mt': mt, 'how': 'atomic'}, **enc)
-    if rng.random() < 0.25:
+    r = rng.random()
+    if r < 0.25:
         op['how'] = 'inplace'
         return [{'k': 'trunc', 'f': f, 'dt': dt, 'how': 'inplace'}, dict(op, dt=rng.choice([0.0, 0.001, 1.0]))]
+    if r < 0.35:                         # editors that unlink and re-create
+        return [{'k': 'rmfile', 'f': f}, dict(op, dt=rng.choice([0.0, 0.0, 0.001, 1.0]))]
     return [op]
 
 
@@ -159,12 +162,16 @@ def make_torn(rng, tier):
     k = rng.randint(1, len(ALL_FAULTS))
     cfg['fault_kinds'] = sorted(rng.sample(ALL_FAULTS, k))
     cfg['fault_src_crash'] = rng.random() < 0.3
+    cfg['threads_share_process'] = cfg['nproc'] > 1 and rng.random() < 0.25
+    cfg['warn_error'] = rng.random() < 0.1
     state = {'n': {}}
     init = []
     for f in range(len(cfg['files'])):
         state['n'][f] = 0
         init.append(_encode_variant(rng, _small_text(rng, f, 0)))
     modes = ['cache'] * 6 + ['cache+diff'] * 2 + ['nocache']
+    if cfg['threads_share_process']:
+        modes = ['cache'] * 6 + ['nocache']      # diff_cache mutates the shared module: not for concurrent threads
     enabled = set(rng.sample(['corrupt', 'chmod', 'rmcache', 'age', 'diskfull', 'tmpfile', 'powerloss', 'edit'],
                              rng.randint(2, 8)))
     ops = []
@@ -225,6 +232,7 @@ def make_diff(rng, tier):
     cfg['p_fault'] = 0.0
     cfg['gran'] = rng.choice([0.0, 1.0])
     cfg['debug_diff'] = rng.random() < 0.33
+    cfg['warn_error'] = rng.random() < 0.15
     cfg['files'] = cfg['files'][:rng.choice([1, 1, 2])]
     cfg['grammars'] = cfg['grammars'][:rng.choice([1, 1, 2])]
     fsmode = rng.random() < 0.3
@@ -233,8 +241,9 @@ def make_diff(rng, tier):
     texts = {}
     hist = {}
     init = []
+    style = rng.choice([0.0, 0.5, 0.9, 1.0])      # share of local, syntax-preserving edits
     for f in range(nfiles):
-        t = corpus.base_text(rng, max_lines)
+        t = corpus.gen_program(rng, rng.randint(4, max_lines)) if rng.random() < style else corpus.base_text(rng, max_lines)
         texts[f] = t
         hist[f] = [t]
         init.append({'text': t} if fsmode else None)
@@ -256,8 +265,14 @@ def make_diff(rng, tier):
                 ops.append(_diff_parse(cfg, fsmode, f, g, mode, texts[f]))
         elif r < 0.16:
             ops.append({'k': 'clock', 'dt': rng.choice([1.0, 700.0, 90000.0])})
+        elif r < 0.24 and fsmode:
+            # the cache location becomes read-only / writable again: saves fail with a warning
+            ops.append({'k': 'chmod', 'c': 0, 'which': rng.choice(['root', 'ver']),
+                        'mode': rng.choice([0o555, 0o755]), 'create': False})
         if rng.random() < 0.1:
             new = corpus.base_text(rng, max_lines)               # replace the whole file
+        elif rng.random() < style:
+            new = corpus.edit_structured(rng, texts[f], hist[f])
         else:
             new = corpus.edit(rng, texts[f], hist[f])
         texts[f] = new
